@@ -19,39 +19,45 @@ def tests(cwd):
     failed = sum(int(m) for m in re.findall(r"test result: \w+\. \d+ passed; (\d+) failed", out))
     demo_failed = "seed_demo" in out and bool(re.search(r"test .*\.\.\. FAILED", out))
     return passed, failed, out
-res = {}
-demo = [f for f in os.listdir(seed) if f.endswith(".rs")][0]
-# 1. unchanged tree + demo: everything passes
-sh("git checkout -- . && git clean -fdq interpreter/tests", wt)
-os.makedirs(os.path.join(wt, "interpreter/tests"), exist_ok=True)
-shutil.copy(os.path.join(seed, demo), os.path.join(wt, "interpreter/tests/seed_demo.rs"))
-p, f, out = tests(wt)
-res["unpatched"] = {"passed": p, "failed": f}
-# 2. patched tree + demo: the 67 pass, the demo fails
-rc, o = sh(f"git apply {seed}/patch.diff", wt)
-if rc != 0:
-    print("patch does not apply:", o); sys.exit(2)
-p2, f2, out2 = tests(wt)
-res["patched"] = {"passed": p2, "failed": f2}
-os.remove(os.path.join(wt, "interpreter/tests/seed_demo.rs"))
-p3, f3, out3 = tests(wt)
-res["patched_without_demo"] = {"passed": p3, "failed": f3}
-sh("git checkout -- .", wt)
-ok = f == 0 and f2 > 0 and f3 == 0 and p3 >= 67
-res["confirmed"] = ok
-print(json.dumps(res))
-if not ok:
-    print("NOT CONFIRMED"); print(out2[-1500:]); sys.exit(1)
-os.makedirs(dest, exist_ok=True)
-shutil.copy(os.path.join(seed, "patch.diff"), dest)
-shutil.copy(os.path.join(seed, demo), os.path.join(dest, "seed_demo.rs"))
-meta = {}
-try: meta = json.load(open(os.path.join(seed, "meta.json")))
-except Exception as e: meta = {"note": f"agent meta.json unreadable: {e}"}
-meta["property"] = prop
-meta["base_commit"] = subprocess.run("git -C /repo rev-parse --short HEAD", shell=True, stdout=subprocess.PIPE, text=True).stdout.strip()
-meta["confirmation"] = res
-meta["confirmation_cmds"] = ["cargo test --workspace --no-fail-fast --offline (unpatched + demo: all pass)", "git apply patch.diff; same command (67 pass, demo fails)", "patched without demo: 67 pass"]
+PHASE = os.environ.get("SEEDTEST_PHASE", "all")  # all | confirm (worktree only, parallelisable) | check (/repo only, serial)
+if PHASE in ("all", "confirm"):
+    res = {}
+    demo = [f for f in os.listdir(seed) if f.endswith(".rs")][0]
+    # 1. unchanged tree + demo: everything passes
+    sh("git checkout -- . && git clean -fdq interpreter/tests", wt)
+    os.makedirs(os.path.join(wt, "interpreter/tests"), exist_ok=True)
+    shutil.copy(os.path.join(seed, demo), os.path.join(wt, "interpreter/tests/seed_demo.rs"))
+    p, f, out = tests(wt)
+    res["unpatched"] = {"passed": p, "failed": f}
+    # 2. patched tree + demo: the 67 pass, the demo fails
+    rc, o = sh(f"git apply {seed}/patch.diff", wt)
+    if rc != 0:
+        print("patch does not apply:", o); sys.exit(2)
+    p2, f2, out2 = tests(wt)
+    res["patched"] = {"passed": p2, "failed": f2}
+    os.remove(os.path.join(wt, "interpreter/tests/seed_demo.rs"))
+    p3, f3, out3 = tests(wt)
+    res["patched_without_demo"] = {"passed": p3, "failed": f3}
+    sh("git checkout -- .", wt)
+    ok = f == 0 and f2 > 0 and f3 == 0 and p3 >= 67
+    res["confirmed"] = ok
+    print(json.dumps(res))
+    if not ok:
+        print("NOT CONFIRMED"); print(out2[-1500:]); sys.exit(1)
+    os.makedirs(dest, exist_ok=True)
+    shutil.copy(os.path.join(seed, "patch.diff"), dest)
+    shutil.copy(os.path.join(seed, demo), os.path.join(dest, "seed_demo.rs"))
+    meta = {}
+    try: meta = json.load(open(os.path.join(seed, "meta.json")))
+    except Exception as e: meta = {"note": f"agent meta.json unreadable: {e}"}
+    meta["property"] = prop
+    meta["base_commit"] = subprocess.run("git -C /repo rev-parse --short HEAD", shell=True, stdout=subprocess.PIPE, text=True).stdout.strip()
+    meta["confirmation"] = res
+    meta["confirmation_cmds"] = ["cargo test --workspace --no-fail-fast --offline (unpatched + demo: all pass)", "git apply patch.diff; same command (67 pass, demo fails)", "patched without demo: 67 pass"]
+    json.dump(meta, open(os.path.join(dest, "meta.json"), "w"), indent=1)
+    if PHASE == "confirm":
+        sys.exit(0)
+meta = json.load(open(os.path.join(dest, "meta.json")))
 # 3. run the checks against it in /repo
 rc, o = sh(f"git -C /repo apply {dest}/patch.diff")
 if rc != 0:
